@@ -1,4 +1,6 @@
 import CSSVerif.Sampler
+/-! Driver for C08. `VC|K=..|MS=..|P=..|C;MIN=..;MAX=..;E=..|...` prints the model's valid compositions with the
+children's extra parameters (`skip` = contradiction); `W w1,w2,..` prints for r = 1..Σw the block the threshold walk selects. -/
 def strsP (s : String) : List String := if s = "" then [] else s.splitOn ","
 def natsP (s : String) : List Nat := (strsP s).map String.toNat!
 def fldP (fs : List String) (key : String) : String :=
@@ -7,6 +9,12 @@ partial def loop (h : IO.FS.Stream) : IO Unit := do
   let line ← h.getLine
   if line.isEmpty then pure () else
     let fs := line.trimAscii.toString.splitOn "|"
+    if fs.head? == some "W" || (line.trimAscii.toString.startsWith "W ") then
+      let ws := natsP ((line.trimAscii.toString.drop 2).toString)
+      let tot := ws.sum
+      IO.println (",".intercalate ((List.range tot).map (fun r => match walk ws (r + 1) with | some (i, _) => toString i | none => "_")))
+      loop h
+    else
     let keys := strsP (fldP fs "K")
     let chs := (fs.filter (·.startsWith "C;")).map (fun c => c.splitOn ";")
     let d : ProdData := {
